@@ -563,7 +563,14 @@ def scenario_clone(run, nseq, length, backends=('plain', 'dictarch', 'file', 'di
         cfg['lockstep'] = independent and alg != 'rr'
         pre = cd.random_ops(rng, rng.randint(0, length), cfg, 7, 'mixed')
         ops = list(pre)
-        ops.append({'op': 'clone', 'i': 1, 'j': 2})
+        if rng.random() < 0.3:
+            # the snapshot is taken by another thread while a call of the original is inside the wrapped function;
+            # the copy then makes the same call on its own, after which both must continue in lock-step
+            a = rng.randint(1, 7)
+            ops.append({'op': 'call', 'a': a, 'i': 1, 'snap': 2})
+            ops.append({'op': 'call', 'a': a, 'i': 2})
+        else:
+            ops.append({'op': 'clone', 'i': 1, 'j': 2})
         for _k in range(length):
             o = cd.random_ops(rng, 1, cfg, 7, 'mixed')[0]
             if cfg['lockstep']:
